@@ -261,14 +261,64 @@ def r04d(ctx):
         ctx.report("R04d", g, g.node, f"keys {keys}", "the mimetype setter does not store the 'mimetype' part")
 
 
+def r04e(ctx):
+    """The manifest names a part by the path it is stored under.
+
+    `add_file`, `set_part`, `del_part` and the merge of pictures key the part table with a path and hand the same path to the manifest.
+    "Every file in it is listed" then needs the manifest functions to write and look up that very string: set through the attribute API
+    (pasted into XML text, '&', '<', '"' break the parse after the part is already stored, and a tab becomes a blank), and never
+    percent-encoded, escaped, normalised or trimmed on the way.
+    """
+    from .c14 import _lossy_call
+    repo = ctx.repo
+    ctx.rule("R04e", "Manifest: the path is written and looked up as given (attribute API, no encoding/escaping/trimming, not pasted into XML text)", floor=5)
+    man = repo.cls("Manifest")
+    n = 0
+    for name in ("make_file_entry", "add_full_path", "del_full_path", "set_media_type", "get_media_type", "_file_entry"):
+        f = man.lookup(name)
+        if f is None:
+            continue
+        n += 1
+        bad = []
+        for x in walk_no_nested(f.node):
+            if isinstance(x, ast.Call) and _lossy_call(x):
+                bad.append((x, f"`{norm(x, 50)}` rewrites the path or media type"))
+            if isinstance(x, ast.Call) and call_name(x) in ("from_tag", "fromstring", "XML") and x.args:
+                a = x.args[0]
+                if isinstance(a, ast.Name):
+                    ds = [s_.value for s_ in walk_no_nested(f.node) if isinstance(s_, ast.Assign) and any(isinstance(t, ast.Name) and t.id == a.id for t in s_.targets)]
+                    a = ds[0] if len(ds) == 1 else a
+                pasted = [v for j in ast.walk(a) if isinstance(j, ast.JoinedStr) for v in j.values if isinstance(v, ast.FormattedValue)] + \
+                         [b for b in ast.walk(a) if isinstance(b, ast.BinOp) and isinstance(b.op, (ast.Mod, ast.Add)) and not isinstance(b.right, ast.Constant)] + \
+                         [c for c in ast.walk(a) if isinstance(c, ast.Call) and isinstance(c.func, ast.Attribute) and c.func.attr == "format"]
+                if pasted:
+                    bad.append((x, f"`{norm(x, 50)}` parses XML text with run-time strings pasted in"))
+        if name == "make_file_entry":
+            params = [a.arg for a in f.node.args.args if a.arg not in ("self", "cls")]
+            sets = [c for c in walk_no_nested(f.node) if isinstance(c, ast.Call) and call_name(c) in ("set_attribute", "set") and len(c.args) == 2
+                    and repo.fold(c.args[0], f.module) == "manifest:full-path"]
+            if not bad and not (sets and all(isinstance(c.args[1], ast.Name) and c.args[1].id in params for c in sets)):
+                bad.append((f.node, "manifest:full-path is not set from the path parameter through the attribute API"))
+        ctx.instance("R04e", f"{f.file}:{f.ident}", "path used as given", ok=not bad, nontrivial=True, line=f.node.lineno)
+        for x, why in bad[:2]:
+            ctx.report("R04e", f, x, why.split("`")[1] if "`" in why else why,
+                       f"{f.ident}: {why}; the container keys the part with the caller's path, so for a path the rewrite changes (or that breaks the XML text) the manifest "
+                       f"lists a file the package does not hold and omits the one it does")
+    if n < 5:
+        raise AnalysisError("R04e: Manifest path functions not found")
+
+
 def run(ctx):
     r04a(ctx)
     r04b(ctx)
     r04c(ctx)
     r04d(ctx)
     # cloning must preserve the package/manifest agreement: a clone that resurrects deleted parts breaks it (shared rule of C10)
-    from .c10 import r10f
+    from .c10 import r10d, r10f
     r10f(ctx)
+    # a clone that shares the part table with its original makes either one save parts the other one's manifest does not list
+    r10d(ctx)
+    r04e(ctx)
     # the manifest is one of the parsed XML parts: it reaches the package only if Document.save flushes every parsed part (rule shared with C03)
     from .c03 import r03b
     r03b(ctx)
@@ -279,7 +329,18 @@ from ..selftest import Seed, unparse_seed  # noqa: E402
 _CT = "src/odfdo/container.py"
 _DOC = "src/odfdo/document.py"
 _MA = "src/odfdo/manifest.py"
+_MAN = "src/odfdo/manifest.py"
 SEEDS = [
+    Seed("make_file_entry pastes path and media type into XML text again", "fault", _MAN,
+         '        entry = Element.from_tag("manifest:file-entry")\n        entry.set_attribute("manifest:media-type", media_type)\n        entry.set_attribute("manifest:full-path", full_path)\n        return entry',
+         '        tag = (\n            f"<manifest:file-entry "\n            f\'manifest:media-type="{media_type}" \'\n            f\'manifest:full-path="{full_path}"/>\'\n        )\n        return Element.from_tag(tag)', "R04e"),
+    Seed("make_file_entry percent-encodes the path", "fault", _MAN,
+         '        entry.set_attribute("manifest:full-path", full_path)', '        entry.set_attribute("manifest:full-path", quote(full_path))', "R04e",
+         edits=[(_MAN, "from __future__ import annotations\n", "from __future__ import annotations\n\nfrom urllib.parse import quote\n")]),
+    Seed("del_full_path trims the path it looks up", "fault", _MAN, "    def del_full_path(self, full_path: str) -> None:\n", "    def del_full_path(self, full_path: str) -> None:\n        full_path = full_path.strip()\n", "R04e"),
+    Seed("make_file_entry sets the path first", "neutral", _MAN,
+         '        entry.set_attribute("manifest:media-type", media_type)\n        entry.set_attribute("manifest:full-path", full_path)',
+         '        entry.set_attribute("manifest:full-path", full_path)\n        entry.set_attribute("manifest:media-type", media_type)'),
     Seed("del_part removes the bytes only when the container lists the part", "fault", _DOC,
          "        self.container.del_part(path)\n        with suppress(KeyError):\n            self.manifest.del_full_path(path)\n",
          "        if path in self.container.parts:\n            self.container.del_part(path)\n        with suppress(KeyError):\n            self.manifest.del_full_path(path)\n", "R04b"),
@@ -308,7 +369,7 @@ SEEDS = [
          "            self.set_media_type(full_path, media_type)\n            return\n", "            self.set_media_type(full_path, media_type)\n", "R04c"),
     Seed("template keeps template media type in manifest", "fault", _DOC, '    manifest.set_media_type("/", mimetype)\n', "", "R04d"),
     Seed("template manifest not written back", "fault", _DOC, "    container.set_part(ODF_MANIFEST, manifest.serialize())\n", "", "R04d"),
-    unparse_seed(_CT), unparse_seed(_DOC), unparse_seed(_MA),
+    unparse_seed(_CT), unparse_seed(_DOC), unparse_seed(_MAN), unparse_seed(_MA),
     Seed("add_full_path as if/else", "neutral", _MA,
          "            self.set_media_type(full_path, media_type)\n            return\n        root = self.root\n        root.append(self.make_file_entry(full_path, media_type))",
          "            self.set_media_type(full_path, media_type)\n        else:\n            root = self.root\n            root.append(self.make_file_entry(full_path, media_type))"),
